@@ -184,6 +184,23 @@ RETURN_OPCODES = {RETURN_VALUE_OPCODE}
 if "RETURN_CONST" in opcode.opmap:
     RETURN_OPCODES.add(opcode.opmap["RETURN_CONST"])
 
+# Since Python 3.11 every frame (re)starts at a RESUME instruction whose
+# argument is 0 only when the function is entered for the first time.
+RESUME_OPCODE = opcode.opmap.get("RESUME")
+
+
+def _is_resumption(frame: FrameType) -> bool:
+    """Is this 'call' event the resumption of a suspended generator or coroutine?"""
+    lasti = frame.f_lasti
+    if lasti < 0:
+        return False
+    code = frame.f_code.co_code
+    if RESUME_OPCODE is not None and code[lasti] == RESUME_OPCODE:
+        return bool(code[lasti + 1] != 0)
+    # Before 3.11 a frame that has not run yet has f_lasti == -1
+    return RESUME_OPCODE is None
+
+
 # A CodeFilter is a predicate that decides whether or not a the call for the
 # supplied code object should be traced.
 CodeFilter = Callable[[CodeType], bool]
@@ -228,6 +245,11 @@ class CallTracer:
         return self.cache[code]
 
     def handle_call(self, frame: FrameType) -> None:
+        if _is_resumption(frame):
+            # Not a new call. Sampling it now would start a trace in the middle
+            # of a generator's life, with whatever its parameters are bound to
+            # by then; if the call is being traced there is nothing to do.
+            return
         if self.sample_rate and random.randrange(self.sample_rate) != 0:
             return
         func = self._get_func(frame)
